@@ -42,7 +42,7 @@ ASSUMPTIONS = [
     "window size is set through the controller's _window_size attribute and "
     "through SCPConnection.read/write's window_size parameter",
 ]
-FLOORS = {"real_socket_op": 150, "op_checked": 2500, "read_bytes_compared": 500,
+FLOORS = {"slow_host_clock": 300, "real_socket_op": 150, "op_checked": 2500, "read_bytes_compared": 500,
           "write_conservation": 800, "multi_buffer_op": 300,
           "faulty_op": 200, "struct_field": 150, "link_op": 100}
 ANCHORS = [("rig.machine_control.machine_controller", "MachineController.fill",
@@ -196,6 +196,12 @@ def run(case, ctx):
     else:
         plan = fault_plan(case["faults"]) if case["faults"] else None
         r = M.Rig(m, plan=plan, timeout=0.5, n_tries=5)
+        if case["seed_mem"] % 3 == 0:
+            # a slow host: the library's own statements take time (every
+            # reading of the clock costs a fraction of a millisecond), so
+            # deadlines pass BETWEEN two of its steps
+            r.net.clock.tick = [3e-4, 2e-3, 1.1e-2][case["seed_mem"] % 9 // 3]
+            ctx.hit("slow_host_clock")
     if not real and (case["seed_mem"] + case["buf"]) % 4 == 0:
         # the machine does not answer when the controller first talks to it;
         # the application catches the error and carries on
